@@ -179,6 +179,18 @@ impl TransportState {
     pub fn is_initiator(&self) -> bool {
         self.initiator
     }
+
+    /// Verification hook: set the forthcoming *outbound* nonce value so that tests can place
+    /// the sending counter next to the 2^64-1 boundary without 2^64 writes.
+    #[cfg(feature = "verif-hooks")]
+    #[doc(hidden)]
+    pub fn verif_set_sending_nonce(&mut self, nonce: u64) {
+        if self.initiator {
+            self.cipherstates.0.set_nonce(nonce);
+        } else {
+            self.cipherstates.1.set_nonce(nonce);
+        }
+    }
 }
 
 impl fmt::Debug for TransportState {
